@@ -542,6 +542,39 @@ func CheckMarshal(tx *gobinlog.Transaction, snap hx.TxSnap) string {
 	return ""
 }
 
+// SnapOfExp converts an expected delivery of the reference model into the
+// snapshot form, so that serialised JSON can be compared with what the master
+// logged (not merely with what the library delivered).
+func SnapOfExp(e ref.ExpTx) hx.TxSnap {
+	s := hx.TxSnap{NowFile: e.Now.File, NowPos: int64(e.Now.Pos), NextFile: e.Next.File, NextPos: int64(e.Next.Pos), TS: int64(e.TS)}
+	rows := func(in [][]ref.ExpCol) [][]hx.ColSnap {
+		var out [][]hx.ColSnap
+		for _, r := range in {
+			var row []hx.ColSnap
+			for _, c := range r {
+				cs := hx.ColSnap{Name: c.Name, Type: c.Type, IsEmpty: c.Absent, Nil: c.Absent || c.Null}
+				if !cs.Nil {
+					cs.Data = append([]byte{}, c.Data...)
+				}
+				row = append(row, cs)
+			}
+			out = append(out, row)
+		}
+		return out
+	}
+	for _, ev := range e.Events {
+		es := hx.EvSnap{Kind: ev.Kind, TS: int64(ev.TS)}
+		if ev.IsRows {
+			es.DB, es.Table = ev.DB, ev.Table
+			es.Values, es.Idents = rows(ev.After), rows(ev.Before)
+		} else {
+			es.QDB, es.SQL = ev.Query.DB, ev.Query.SQL
+		}
+		s.Events = append(s.Events, es)
+	}
+	return s
+}
+
 // RunMarshal is the end-to-end half of C20: every transaction delivered in a
 // slice of C01's space is serialised and decoded back.
 func RunMarshal(r *chk.Run) {
@@ -572,6 +605,17 @@ func RunMarshal(r *chk.Run) {
 			}
 		}
 	}
+	// string columns with {value, NULL, absent, empty string} and integer
+	// columns at their extremes
+	for _, tab := range []string{"N", "S"} {
+		patternSpace(tab, func(p Pattern) {
+			if p.Kind == 1 && (p.Before[0]+p.After[1]+p.After[2])%4 != 0 && !r.Thorough() {
+				return
+			}
+			pp := p
+			inputs = append(inputs, HistInput{Units: []string{"pattern", UDDL}, Cfg: cfg, Pattern: &pp})
+		})
+	}
 	if wideReady {
 		for v := 1; v <= wideVariants; v++ {
 			for kind := 0; kind < 3; kind++ {
@@ -590,13 +634,17 @@ func RunMarshal(r *chk.Run) {
 			if out.Hung {
 				chk.Fatalf("C20: Stream did not return within 60 s on %v", in.Units)
 			}
-			for _, d := range out.Deliveries {
-				local++
-				if why := CheckMarshal(d.Tx, d.Snap); why != "" {
-					in2 := in
-					in2.Oracle = "marshal"
-					r.Report(chk.Violation{Key: "marshal-e2e:" + firstWord(why), What: fmt.Sprintf("units=%v: %s", in.Units, why), Kind: "history", Replay: in2})
-				}
+			why := marshalHistory(in, h, out)
+			local += int64(len(out.Deliveries))
+			if why != "" {
+				in2 := in
+				in2.Oracle = "marshal"
+				r.Report(chk.Violation{Key: "marshal-e2e:" + firstWord(why), What: fmt.Sprintf("units=%v pattern=%+v: %s", in.Units, in.Pattern, why), Kind: "history", Replay: in2,
+					Recheck: func() string {
+						h2 := in2.build()
+						o2 := Run(h2, Opts{Start: ref.Position{File: h2.Files[0].Name, Pos: 4}, ServerID: 3, KeepTx: true})
+						return marshalHistory(in2, h2, o2)
+					}})
 			}
 		}
 		mu <- struct{}{}
@@ -610,6 +658,42 @@ func RunMarshal(r *chk.Run) {
 	r.Set("e2e_histories", len(inputs))
 	r.Set("e2e_transactions_serialised", ntx)
 	r.Sample("e2e", map[string]interface{}{"units": []string{UTx2, UDDL}, "oracle": "json.Marshal(tx) decodes to the same positions, events, names, SQL, per-column name/type/absent/data (NULL -> null, empty -> \"\")"})
+}
+
+// marshalHistory serialises every delivery of one execution and compares the
+// decoded JSON with the delivered transaction AND with the reference model's
+// expectation; documents obtained by calling MarshalJSON directly must stay
+// intact while later transactions are serialised.
+func marshalHistory(in HistInput, h *ref.History, out *Outcome) string {
+	start := ref.Position{File: h.Files[0].Name, Pos: 4}
+	served, _ := h.Serve(start.File, 4)
+	exp, _ := ref.Expect(served, start)
+	type kept struct {
+		doc, copy []byte
+	}
+	var keep []kept
+	for i, d := range out.Deliveries {
+		if why := CheckMarshal(d.Tx, d.Snap); why != "" {
+			return fmt.Sprintf("delivery %d: %s", i, why)
+		}
+		if i < len(exp) && len(exp) == len(out.Deliveries) {
+			if why := CheckMarshal(d.Tx, SnapOfExp(exp[i])); why != "" {
+				return fmt.Sprintf("delivery %d against what the master logged: %s", i, why)
+			}
+		}
+		var doc []byte
+		var err error
+		if p := chk.Catch(func() { doc, err = d.Tx.MarshalJSON() }); p != "" || err != nil {
+			return fmt.Sprintf("delivery %d: MarshalJSON failed: %v %s", i, err, firstLine(p))
+		}
+		keep = append(keep, kept{doc, append([]byte{}, doc...)})
+		for j, k := range keep {
+			if !bytes.Equal(k.doc, k.copy) {
+				return fmt.Sprintf("the document MarshalJSON returned for delivery %d changed when delivery %d was serialised (shared buffer)", j, i)
+			}
+		}
+	}
+	return ""
 }
 
 func firstWord(s string) string {
